@@ -334,6 +334,12 @@ def _eval_const(expr: str, env: dict):
             # the size of its operands: refuse to fold what would not fit a device word
             if abs(a) > 1 and b > 64:
                 raise ValueError("exponent too large to evaluate at transpile time")
+        if isinstance(a, int) and isinstance(b, int) and (
+            (opcls is ast.Mult and a.bit_length() + b.bit_length() > 4096)
+            or (opcls is ast.LShift and a and b > 4096)
+        ):
+            # repeated squaring (x = x * x, line after line) doubles the size every time
+            raise ValueError("value too large to evaluate at transpile time")
         return ops[opcls](a, b)
 
     tree = ast.parse(expr, mode="eval")
@@ -4348,6 +4354,13 @@ def _logical_lines(src: str) -> List[str]:
 def parse(src: str) -> Program:
     """Parse ``src`` into a :class:`~Reduino.transpile.ast.Program`."""
 
+    try:
+        return _parse(src)
+    except RecursionError:
+        raise ValueError("the script is nested too deeply to transpile") from None
+
+
+def _parse(src: str) -> Program:
     lines = _logical_lines(src)
     setup_body: List[object] = []
     loop_body: List[object]  = []
